@@ -315,7 +315,8 @@ mod scaled {
                         if op[0] == 0 && row.len() >= 3 && row[0] == 0 && row[2] > 0 {
                             let end = (row[2] - 1) as usize;
                             let got: Vec<u8> = row[3..].iter().map(|x| *x as u8).collect();
-                            if end > plain.len() || got.len() > end || plain[end - got.len()..end] != got[..] {
+                            // (a read that returns no byte claims nothing: after a seek beyond the end the position may exceed the length)
+                            if !got.is_empty() && (end > plain.len() || got.len() > end || plain[end - got.len()..end] != got[..]) {
                                 note = Some(format!("a read that succeeded returned {} bytes that are not the bytes written before position {end}", got.len()));
                             }
                         }
